@@ -76,11 +76,35 @@ TQuery ==
   /\ lastq' = [f |-> Ev.f, l |-> Ev.l, idx |-> Ev.idx, err |-> Ev.err, reader |-> Ev.reader]
   /\ UNCHANGED <<N, m, a, kind, req, L, sent, state>>
 
+\* END TO END (vdrive logengine): one complete Replicate call against a real engine; the driver works sequentially, so
+\* applied = the table's applied index and first = the first index the Raft log still holds, both exactly as of the call.
+\* {"ev":"equery","from":n,"applied":n,"first":n,"msgs":[{kind, li, idx, labels, keys, want}],"err":""}
+\* keys: the key of every command sent ("" for entries that travel as DUMMY); want: the key written at that log index
+RECURSIVE Cat(_, _)
+Cat(msgs, f) == IF msgs = <<>> THEN <<>> ELSE msgs[1][f] \o Cat(Tail(msgs), f)
+TEQuery ==
+  /\ IsEvent("equery")
+  /\ Ev.err = ""
+  /\ Len(Ev.msgs) >= 1
+  /\ LET n    == Len(Ev.msgs)
+         last == Ev.msgs[n]
+         body == SubSeq(Ev.msgs, 1, n - 1)
+         idx  == Cat(body, "idx") IN
+     /\ \A i \in 1..(n - 1) : Ev.msgs[i].kind = "CMDS" /\ Len(Ev.msgs[i].idx) >= 1
+     /\ IF Ev.from > Ev.applied + 1 THEN n = 1 /\ last.kind = "LEADER_BEHIND"
+        ELSE IF Ev.from < Ev.first THEN n = 1 /\ last.kind = "USE_SNAPSHOT"          \* already compacted
+        ELSE /\ last.kind = "EMPTY" /\ last.li = Ev.applied                          \* ends at applied + 1 ...
+             /\ Len(idx) = Ev.applied + 1 - Ev.from                                   \* ... after everything up to it
+             /\ Consecutive(idx, Ev.from)                                             \* no gap, no repeat, in order
+             /\ Cat(body, "labels") = idx                                             \* each labelled with its own index
+             /\ Cat(body, "keys") = Cat(body, "want")                                 \* and it IS the entry at that index
+  /\ UNCHANGED <<N, m, a, kind, req, L, sent, state, lastq>>
+
 TReset == /\ IsEvent("reset") /\ N' = 0 /\ m' = 0 /\ a' = 0 /\ kind' = <<>>
           /\ req' = [s \in S |-> 0] /\ L' = [s \in S |-> 0] /\ sent' = [s \in S |-> 0] /\ state' = [s \in S |-> "idle"]
           /\ lastq' = NoQ
 
-TNext == TAppend \/ TApply \/ TCompact \/ TStart \/ TMsg \/ TEnd \/ TQuery \/ TReset
+TNext == TAppend \/ TApply \/ TCompact \/ TStart \/ TMsg \/ TEnd \/ TQuery \/ TEQuery \/ TReset
 TSpec == TInit /\ [][TNext]_vars
 
 TraceAccepted ==
